@@ -5,7 +5,7 @@ set -u
 cd /verif
 git -C /repo diff --quiet || { echo "/repo dirty"; exit 3; }
 : > seeded/RESULTS.tsv
-for d in seeded/C*-m*/; do
+for d in seeded/C*m[0-9]/; do
   id=$(basename $d)
   prop=$(python3 -c "import json;print(json.load(open('$d/meta.json'))['property'])")
   git -C /repo apply /verif/$d/patch.diff 2>/dev/null || { printf "%s\t%s\tNA\tpatch does not apply\n" $id $prop >> seeded/RESULTS.tsv; continue; }
